@@ -308,6 +308,10 @@ class ReadInput(Input):
             raise ParsingError(self, "", self._parser.log.clear_queue())
         self._tree = parse_result
         self._parameters = self._tree["parameters"]
+        if "file" not in self._parameters.nodes:
+            raise ParsingError(
+                self, "A read input must name the file to read with file=", []
+            )
 
     @staticmethod
     def is_read_input(input_lines):
